@@ -12,7 +12,7 @@ BFMAP = [('optimal_size', 'size'), ('optimal_maxsizemincost', 'cost'), ('optimal
          ('optimal_max_lec_abs_diff', 'mx'), ('optimal_sum_lec_abs_diff', 'sm')]
 
 
-def record_run(text_codes, na, twopl, pc=False, stab=False, bf=False, crits=(), enumerate_cbc=False):
+def record_run(text_codes, na, twopl, pc=False, stab=False, bf=False, crits=(), enumerate_cbc=False, loadonly=False):
     """One execution of the real solver with the real CBC -> trace dict."""
     impl.ensure_repo()
     o = {'na': na, 'twopl': twopl, 'pc': pc, 'stab': stab, 'bf': bf,
@@ -21,8 +21,17 @@ def record_run(text_codes, na, twopl, pc=False, stab=False, bf=False, crits=(), 
     t = {'text': list(text_codes), 'na': na, 'twopl': twopl, 'pc': pc, 'stab': stab, 'bf': bf,
          'crits': [{'c': c['c'], 'x': list(c['x'])} for c in crits],
          'construct': 'ok', 'exception': '', 'loaded': {}, 'status': '', 'matching': [], 'objvals': [], 'stabline': '',
-         'stats': {}, 'bfres': {'feasible': False}, 'agree': [], 'archive': False}
+         'stats': {}, 'bfres': {'feasible': False}, 'agree': [], 'archive': False, 'loadonly': bool(loadonly)}
     try:
+        if loadonly:
+            st, S = impl.construct_solver(solverplay.argv_of(o, path))
+            if st != 'ok':
+                t['construct'] = '%s %s' % (st, S)
+                return t
+            li = impl.loaded_instance(S)
+            li.pop('_pairinfo')
+            t['loaded'] = li
+            return t
         r = solverplay.run_once(solverplay.argv_of(o, path), mode='cbc', getters=('results',) if bf else ('short',),
                                 enumerate_cbc=enumerate_cbc, keep_sets=False)
         st, S = r['construct']
@@ -100,7 +109,7 @@ def validate(traces, pid, label='Trace_Pipe', chunks=4, workers=4):
         if isinstance(x, (list, tuple)):
             return [nn(v) for v in x]
         return x
-    slim = [nn({k: v for k, v in t.items() if k not in ('agree', 'meta')}) for t in traces]
+    slim = [nn(dict({k: v for k, v in t.items() if k not in ('agree', 'meta')}, loadonly=bool(t.get('loadonly')))) for t in traces]
     nchunks = max(1, min(chunks, len(slim) // 20 + 1))
     size = -(-len(slim) // nchunks)
     jobs = [(pid, label, i, slim[i:i + size], workers) for i in range(0, len(slim), size)]
